@@ -49,6 +49,11 @@ def run(chk):
     chk.guard('invlpgb', 'Invlpgb object', lambda: invlpgb_object(chk))
     chk.guard('flush-token', 'ignore', lambda: ignore_tokens(chk))
     chk.guard('invlpgb', 'flush loop', lambda: flush_loop(chk))
+    # the loop measures and advances its range with the page stepping functions (opaque in the loop rule above): their own rules - exact
+    # distances and steps for every page size, across the gap - are C05's and are run here
+    from . import c05
+    chk.guard('page-steps', 'exact steps', lambda: c05.addr_steps(chk))
+    chk.guard('page-steps', 'exact distances', lambda: c05.steps_between(chk))
     chk.guard('asm-options', 'tlb.rs', lambda: asm_not_pure(chk, chk.I, 'asm-options', ['src/instructions/tlb.rs'], 7))
     chk.floor('obligations', len(chk.obs), 74)
 
